@@ -17,3 +17,5 @@ Definition h_goodc (c : vc) : bool := forallb h_good (flatten c).
 Fixpoint h_sepb (l : list rng) : bool :=
   match l with [] => true | x :: r => forallb (is_strictly_lower x) r && h_sepb r end.
 Definition h_sorted (c : vc) : bool := h_sepb (flatten c).
+(* no member is degenerate: its allowed maximum is not below its own minimum ('>=2.0.dev1,<2.0' is; the parser returns empty for it) *)
+Definition h_nondeg (c : vc) : bool := forallb (fun r => negb (is_strictly_lower r r)) (flatten c).
